@@ -36,7 +36,19 @@ NT04 == last'.a = "buy" \/ (last'.a = "postfile" /\ last'.pay = "once")
 NT07 == (last'.a \in {"postfile", "deletefile"} /\ plans # <<>>) \/ (last'.a = "block" /\ ObsGone # {})
 NT12 == last'.a = "block" /\ last'.ok /\ last'.reward /\ \E g \in DOMAIN gauges : bal[g] > 0
 
+\* In "fine" recordings block times have sub-hour offsets: the hour-tick arithmetic of the detailed model does not apply, only the
+\* exact release check below is evaluated (the harness computes floor(deposited * elapsed_us / total_us) with big integers).
+Fine == "fine" \in DOMAIN E.post /\ E.post.fine
+C12_Exact ==
+  (last'.a = "block" /\ last'.ok) =>
+     \A g \in DOMAIN gauges :
+        IF last'.reward /\ g \in DOMAIN E.x.exp
+        THEN (IF E.x.exp[g] - rel'[g] < 0 THEN rel'[g] - E.x.exp[g] ELSE E.x.exp[g] - rel'[g]) <= 1 /\ rel'[g] <= dep[g]
+        ELSE bal'[g] = bal[g]
+C12_Mono == \A g \in DOMAIN rel' : rel'[g] <= dep'[g] /\ (g \in DOMAIN rel => rel'[g] >= rel[g])
+PropsFine == /\ Chk("C12_Exact", C12_Exact) /\ Chk("C12_Gauges", C12_Mono) /\ NT("C12", NT12)
 Props ==
+  /\ Chk("C12_Exact", C12_Exact)
   /\ Chk("C04_Buy", C04_Buy) /\ Chk("C04_PayOnce", C04_PayOnce) /\ Chk("C04_Other", C04_Other)
   /\ Chk("C07_Used", C07_Used => C07_Used') /\ Chk("C07_Reject", C07_Reject)
   /\ Chk("C12_Gauges", C12_Gauges)
@@ -47,8 +59,8 @@ TStep == /\ E.a # "reset"
          /\ l' = l + 1
          /\ LoggedPost(E.post) /\ last' = Lbl(E)
          /\ GhostNext
-         /\ (IF SpecAct(E) THEN TRUE ELSE Report_("DRIFT", E.a))
-         /\ Props
+         /\ IF Fine THEN PropsFine
+            ELSE (IF SpecAct(E) THEN TRUE ELSE Report_("DRIFT", E.a)) /\ Props
 TReset == /\ E.a = "reset" /\ l' = l + 1
           /\ LoggedPost(E.post) /\ last' = [a |-> "reset", ok |-> TRUE]
           /\ dep' = <<>> /\ rel' = <<>>
